@@ -66,12 +66,41 @@ def rleDecompress (tag : UInt8) : Bytes → Option Bytes
   | [] => none
   | t :: rest => if t == tag then rleExpand rest else none
 
+def protoName : Bytes := [0x70, 0x72, 0x6F, 0x74, 0x6F]
+
+/-- Base-128 varint. -/
+def varint : Nat → Nat → Bytes
+  | 0, _ => []
+  | fuel + 1, n => if n < 128 then [UInt8.ofNat n] else UInt8.ofNat (n % 128 + 128) :: varint fuel (n / 128)
+
+def unvarint : Nat → Bytes → Option (Nat × Bytes)
+  | 0, _ => none
+  | _, [] => none
+  | fuel + 1, b :: rest =>
+    if b < 128 then some (b.toNat, rest)
+    else (unvarint fuel rest).map fun (hi, r) => (b.toNat - 128 + 128 * hi, r)
+
+/-- `google.protobuf.BytesValue{value}` in its canonical encoding (vanguard's built-in proto codec; the
+    scenarios use it only where the service accepts it, so the transcoder itself never decodes it). -/
+def protoEncode (v : Bytes) : Bytes := if v.isEmpty then [] else 0x0A :: varint 10 v.length ++ v
+
+def protoDecode (p : Bytes) : Option Bytes :=
+  match p with
+  | [] => some []
+  | 0x0A :: rest =>
+    match unvarint 10 rest with
+    | some (n, body) => if body.length == n then some body else none
+    | none => none
+  | _ => none
+
 def fakeWorld : World where
-  knownCodec n := n == rawName || n == hexaName || n == revName
-  decode n p := if n == hexaName then hexDecode p else if n == revName then some p.reverse else some p
-  encode n v := if n == hexaName then hexEncode v else if n == revName then v.reverse else v
-  stable n := n == rawName || n == hexaName
-  binary n := n == rawName
+  knownCodec n := n == rawName || n == hexaName || n == revName || n == protoName
+  decode n p := if n == hexaName then hexDecode p else if n == revName then some p.reverse
+    else if n == protoName then protoDecode p else some p
+  encode n v := if n == hexaName then hexEncode v else if n == revName then v.reverse
+    else if n == protoName then protoEncode v else v
+  stable n := n == rawName || n == hexaName || n == protoName
+  binary n := n == rawName || n == protoName
   knownCompression n := n == zName || n == yName || n == [0x67, 0x7A, 0x69, 0x70]   -- gzip is always registered
   compress n b := if n == zName then rleCompress 0x5A b else if n == yName then rleCompress 0x59 b else b
   decompress n b := if n == zName then rleDecompress 0x5A b else if n == yName then rleDecompress 0x59 b else none
